@@ -797,10 +797,14 @@ class C19(vlib.Driver):
                     before = agent.sigma_inv.detach().clone()
                     nb = (int(agent.numel), float(agent.lamb))
                     try:
-                        if op[1] == "mask_len":        # raises after the per-arm gradients were taken, before the update
+                        how = op[1]
+                        if how == "ctx_shape" and case.get("space") == "image":
+                            how = "mask_len"           # (a CNN accepts other image sizes / channel counts after preprocessing)
+                        if how == "mask_len":          # raises after the per-arm gradients were taken, before the update
                             agent.get_action(ctx, action_mask=np.ones(case["arms"] + 1, dtype=int))
-                        elif op[1] == "ctx_shape":     # raises in the forward pass
-                            bad = {k: v[:, :1] for k, v in ctx.items()} if isinstance(ctx, dict) else ctx[..., :1]
+                        elif how == "ctx_shape":       # raises in the forward pass
+                            bad = ({k: v[:, :1] for k, v in ctx.items()} if isinstance(ctx, dict)
+                                   else ctx[:, :1])     # one feature / one channel instead of the space's
                             agent.get_action(bad)
                         else:                          # a mask that is not an array at all
                             agent.get_action(ctx, action_mask="101")
